@@ -13,6 +13,7 @@
 From Coq Require Import ZArith List Bool Permutation Sorting.Sorted.
 From MV Require Import Geo.Wind2Defs Geo.Wind2 Geo.RegularDefs Geo.Regular.
 From MV Require Geo.Vert1DDefs Geo.Vert1D Geo.WalkDefs Geo.Walk.
+From MV Require Import Geo.EpsSitesDefs Gen.C11Eps Geo.EpsSites.
 Import ListNotations.
 Local Open Scope Z_scope.
 
@@ -87,6 +88,16 @@ Proof.
   exact (fun wa ws Ha H => conj (Wind2.add_rule_many (wa :: ws) (Forall_cons wa Ha H)) (Wind2.subtract_rule_many wa ws Ha H)).
 Qed.
 Print Assumptions batch_rule_table.
+
+(* Which epsilon an arrangement resolves at: the table Gen/C11Eps.v is regenerated
+   from src/cross_section.cpp on every run (translate/c11_eps.py); every call of
+   Boolean2D / ApplyFillRule made by CrossSection (Boolean, BatchBoolean, the
+   fill-rule constructors, WarpBatch) passes eps = InferEps(its own polygon
+   arguments) - the "epsilon of the input edges" of the property - and never an
+   inherited tolerance_. *)
+Theorem eps_is_inferred_from_input_edges : eps_sites_ok eps_sites = true.
+Proof. exact EpsSites.eps_sites_table_ok. Qed.
+Print Assumptions eps_is_inferred_from_input_edges.
 
 (* ------------------------------------------------------------------ *)
 (* (2) the verified output checkers                                    *)
